@@ -161,8 +161,8 @@ func (st *State) peek(fr *Frame, v ssa.Value) (uint64, bool) {
 	case *ssa.Global:
 		return st.globalObj(v.(*ssa.Global)).base(), true
 	}
-	if r, ok := fr.locals[v]; ok {
-		if t, ok := r.(*Term); ok && t.IsConst() {
+	if i, ok := fr.info.idx[v]; ok {
+		if t, ok := fr.locals[i].(*Term); ok && t.IsConst() {
 			return t.C, true
 		}
 	}
@@ -295,6 +295,9 @@ func (st *State) shareAddr(a uint64) {
 }
 
 func (st *State) scanWord(o *Obj, off int) {
+	if o.bytes == nil {
+		return
+	}
 	var v uint64
 	for i := 7; i >= 0; i-- {
 		b := o.bytes[off+i]
@@ -476,9 +479,9 @@ func (st *State) send(th *Thread, fr *Frame, x *ssa.Send) bool {
 func (st *State) recv(th *Thread, fr *Frame, x *ssa.UnOp) bool {
 	set := func(v Value, ok bool) {
 		if x.CommaOk {
-			fr.locals[x] = Agg{v, st.c.Bool(ok)}
+			fr.set(x, Agg{v, st.c.Bool(ok)})
 		} else {
-			fr.locals[x] = v
+			fr.set(x, v)
 		}
 	}
 	if th.wake != nil {
@@ -510,7 +513,7 @@ func (st *State) doSelect(th *Thread, fr *Frame, x *ssa.Select) bool {
 				}
 			}
 		}
-		fr.locals[x] = res
+		fr.set(x, res)
 	}
 	if th.wake != nil {
 		w := th.wake
